@@ -149,14 +149,18 @@ func verif_C17_trip() {
 
 // verif_C17_lookalike: the backend opts out of enhanced codes (NoEnhancedCode)
 // and its message begins with text that merely starts like one: "d.d.d"
-// followed by one arbitrary octet. Unless that octet is the space that makes
-// it exactly an enhanced code followed by text (ambiguous on the wire, not
-// judged), the client must return the message unaltered and no enhanced code.
+// followed by one arbitrary octet, possibly with white space in front. Unless
+// it is, at the very start of the text, exactly an enhanced code followed by a
+// space (ambiguous on the wire, not judged), the client must return the message unaltered and no enhanced code.
 func verif_C17_lookalike() {
 	x := nondetByte()
+	// text in front of it: nothing, or white space (then even "5.7.1 " is not
+	// at the start of the text and so not an enhanced code)
+	lead := []string{"", " ", "  "}[verifChoice(3)]
 	// (a digit would extend the last component: still exactly an enhanced code)
-	assume(verifTextOctet(x) && x != ' ' && !(x >= '0' && x <= '9'))
-	msg := "5.7.1" + string([]byte{x}) + " relaying denied"
+	assume(verifTextOctet(x) && !(x >= '0' && x <= '9'))
+	assume(x != ' ' || lead != "")
+	msg := lead + "5.7.1" + string([]byte{x}) + " relaying denied"
 	which := verifChoice(2)
 	berr := &SMTPError{Code: 550, EnhancedCode: NoEnhancedCode, Message: msg}
 	be := &vbackend{}
